@@ -50,6 +50,18 @@ def soup(rng, n):
 def crlf(src): return src.replace("\r\n", "\n").replace("\n", "\r\n")
 
 
+def relayout(rng, src, p=0.25):
+    """the same tokens with line breaks (and some indentation) at random places between them:
+    every construct may now span several lines"""
+    toks = tokens(src)
+    out = []
+    for t in toks:
+        if t.isspace() and "\n" not in t and rng.random() < p: out.append(rng.choice(["\n", "\n\t", "\n\n", "\n  "]))
+        elif not t.isspace() and not t.startswith("//") and out and not out[-1].isspace() and rng.random() < p / 3: out.append("\n"); out.append(t)
+        else: out.append(t)
+    return "".join(out)
+
+
 def generated(rng, faults=1):
     g = GP.Gen(random.Random(rng.getrandbits(64)))
     src = GP.source(g.program(), random.Random(rng.getrandbits(32)), plain=rng.random() < 0.5)
@@ -68,7 +80,9 @@ def stream(rng, n, repo=None):
             if rng.random() < 0.1: s = crlf(s)
             out.append(("mut:" + name, s))
         elif k < 7: out.append(("gen-fault", generated(rng, rng.choice([1, 1, 2, 3]))))
-        elif k < 8: out.append(("soup", soup(rng, rng.randint(1, 30))))
+        elif k < 8:
+            if i % 20 < 10: out.append(("soup", soup(rng, rng.randint(1, 30))))
+            else: out.append(("gen-fault-relayout", relayout(rng, generated(rng, rng.choice([1, 1, 2])))))
         elif k < 9:
             s = generated(rng, 1)
             out.append(("gen-fault-crlf", crlf(s)))
